@@ -586,6 +586,55 @@ class Eval:
                     raise Opaque(ast.unparse(e))          # e.g. d.utcoffset() is None
                 raise Unsupported("is None " + ast.unparse(e))
             if isinstance(op, (ast.Eq, ast.NotEq, ast.Gt, ast.GtE, ast.Lt, ast.LtE)):
+                # a*len(s) + b <op> c*len(s) + d  (len(s) + 2 > self.width - len(self.newline)): brought to len(s) <op'> n
+                def _lin(x):
+                    if isinstance(x, ast.Call) and isinstance(x.func, ast.Name) and x.func.id == "len" and len(x.args) == 1 and self.is_str(x.args[0]):
+                        return (1, 0)
+                    if isinstance(x, ast.BinOp) and isinstance(x.op, (ast.Add, ast.Sub)):
+                        a_, b_ = _lin(x.left), _lin(x.right)
+                        if a_ is None or b_ is None:
+                            return None
+                        sg = 1 if isinstance(x.op, ast.Add) else -1
+                        return (a_[0] + sg * b_[0], a_[1] + sg * b_[1])
+                    if isinstance(x, ast.BinOp) and isinstance(x.op, (ast.Mult, ast.Div)):
+                        a_, b_ = _lin(x.left), _lin(x.right)
+                        if a_ is None or b_ is None:
+                            return None
+                        if isinstance(x.op, ast.Mult) and (a_[0] == 0 or b_[0] == 0):
+                            k_, o_ = (a_[1], b_) if a_[0] == 0 else (b_[1], a_)
+                            return (o_[0] * k_, o_[1] * k_)
+                        if isinstance(x.op, ast.Div) and b_[0] == 0 and b_[1]:
+                            return (a_[0] / b_[1], a_[1] / b_[1])
+                        return None
+                    if self.mentions_str(x):
+                        return None
+                    try:
+                        v_ = self.conc(x)
+                    except Unsupported:
+                        return None
+                    return (0, v_) if isinstance(v_, (int, float)) and not isinstance(v_, bool) else None
+                _is_len = lambda x: isinstance(x, ast.Call) and isinstance(x.func, ast.Name) and x.func.id == "len" and len(x.args) == 1 and self.is_str(x.args[0])
+                if not _is_len(l) and any(_is_len(x) for x in ast.walk(e)):
+                    ll, rr = _lin(l), _lin(r)
+                    if ll is not None and rr is not None and ll[0] != rr[0]:
+                        k_ = ll[0] - rr[0]
+                        n_ = (rr[1] - ll[1]) / k_
+                        flip = {ast.Gt: ast.Lt, ast.GtE: ast.LtE, ast.Lt: ast.Gt, ast.LtE: ast.GtE}
+                        op2 = type(op) if k_ > 0 else flip.get(type(op), type(op))
+                        import math
+                        if op2 is ast.Eq:
+                            d = SL.length_eq(int(n_)) if n_ == int(n_) and n_ >= 0 else EMPTY
+                        elif op2 is ast.NotEq:
+                            d = ~SL.length_eq(int(n_)) if n_ == int(n_) and n_ >= 0 else EVERYTHING
+                        elif op2 is ast.Gt:
+                            d = SL.length_gt(math.floor(n_)) if n_ >= 0 else EVERYTHING
+                        elif op2 is ast.GtE:
+                            d = SL.length_gt(math.ceil(n_) - 1) if n_ > 0 else EVERYTHING
+                        elif op2 is ast.Lt:
+                            d = ~(SL.length_gt(math.ceil(n_) - 1) if n_ > 0 else EVERYTHING)
+                        else:
+                            d = ~SL.length_gt(math.floor(n_)) if n_ >= 0 else EMPTY
+                        return reach & d
                 # len(s) <op> n
                 if isinstance(l, ast.Call) and isinstance(l.func, ast.Name) and l.func.id == "len" and self.is_str(l.args[0]):
                     n = self.conc(r)
@@ -1426,6 +1475,12 @@ class Eval:
         if src.startswith("int(") and "base=10" in src:
             return SL.INT10
         if src.startswith("self.real_cls("):
+            a0 = v.args[0] if isinstance(v, ast.Call) and v.args else None
+            if a0 is not None and not (self.is_str(a0) or (isinstance(a0, ast.Call) and isinstance(a0.func, ast.Name) and a0.func.id == "str"
+                                                          and a0.args and self.is_str(a0.args[0]))):
+                # a text put together from parts of a match (f"{m['mantissa']}E{m['exp']}"): what reaches this point was
+                # already constrained by the regex; the constructor's own acceptance of the rebuilt text is not modelled
+                return EVERYTHING
             return SL.FLOAT
         if src.startswith("int(") :
             return EVERYTHING        # digits already constrained by the regex; radix validity not modelled
